@@ -933,8 +933,23 @@ class Evaluator(object):
         return (_binop(e.op), a, b)
 
     def ex_BoolOp(self, e, st, frame):
-        vals = [self.ev(x, st, frame) for x in e.values]
-        return ("and" if isinstance(e.op, ast.And) else "or",) + tuple(vals)
+        is_and = isinstance(e.op, ast.And)
+        if not any(isinstance(n, ast.Call) for x in e.values[1:] for n in ast.walk(x)):
+            vals = [self.ev(x, st, frame) for x in e.values]
+            return ("and" if is_and else "or",) + tuple(vals)
+
+        # short circuit: a later operand (and the calls inside it) is evaluated only when the earlier ones let it
+        def go(i, cur):
+            v = self.ev(e.values[i], cur, frame)
+            if i == len(e.values) - 1:
+                return [v]
+            s1, s2, n1, n2 = self._fork(cur, v)
+            cont = s1 if is_and else s2
+            rest = go(i + 1, cont) if cont.alive is True else [NONE]
+            self.merge_into(cur, v, s1, s2, n1, n2)
+            return [v] + rest
+
+        return ("and" if is_and else "or",) + tuple(go(0, st))
 
     def ex_Compare(self, e, st, frame):
         left = self.ev(e.left, st, frame)
@@ -947,9 +962,26 @@ class Evaluator(object):
             return parts[0]
         return ("and",) + tuple(parts)
 
+    def _fork(self, st, cond):
+        s1, s2 = st.copy(), st.copy()
+        s1.guard.extend(literals(cond, True))
+        s1.graw.append((cond, True))
+        s2.guard.extend(literals(cond, False))
+        s2.graw.append((cond, False))
+        s1._nraw, s2._nraw = len(s1.graw), len(s2.graw)
+        for s_ in (s1, s2):
+            if _contradictory(s_.guard):
+                s_.alive = "dead"
+        return s1, s2, len(s1.guard), len(s2.guard)
+
     def ex_IfExp(self, e, st, frame):
+        # each arm is evaluated under its own condition (its calls and refreshing reads happen only then)
         c = self.ev(e.test, st, frame)
-        return ("ite", c, self.ev(e.body, st, frame), self.ev(e.orelse, st, frame))
+        s1, s2, n1, n2 = self._fork(st, c)
+        v1 = self.ev(e.body, s1, frame) if s1.alive is True else NONE
+        v2 = self.ev(e.orelse, s2, frame) if s2.alive is True else NONE
+        self.merge_into(st, c, s1, s2, n1, n2)
+        return ("ite", c, v1, v2)
 
     def ex_ListComp(self, e, st, frame):
         return self.eval_comp(e, st, frame)
